@@ -542,7 +542,7 @@ def _listener():
     return _LISTENER
 
 
-A_TSTART = 6      # thread kinds: start a thread whose send_packet uses timeout=SHORT_TIMEOUT
+A_TSTART = 6      # thread kinds: [6, t, c] start a thread whose send_packet uses timeout 0 (c=0) / SHORT_TIMEOUT (c=1) / inf (c=2)
 SHORT_TIMEOUT = 0.05
 
 
@@ -713,10 +713,12 @@ def run_threads(kind, progs, actions, detail=False):
                 break
             if a[0] in (A_START, A_TSTART) and a[1] not in threads:
                 t = a[1]
-                th = threading.Thread(target=body, args=(t, None if a[0] == A_START else SHORT_TIMEOUT), name=names[t], daemon=True)
+                tcode = None if a[0] == A_START else (a[2] if len(a) > 2 else 1)
+                tmo = {None: None, 0: 0.0, 1: SHORT_TIMEOUT, 2: float("inf")}[tcode]
+                th = threading.Thread(target=body, args=(t, tmo), name=names[t], daemon=True)
                 threads[t] = th
                 th.start()
-                if a[0] == A_TSTART:
+                if a[0] == A_TSTART and tcode != 2:
                     # it either times out on the lock (held by the thread parked in send) or gets into send itself
                     wait_until(lambda: not th.is_alive() or ctl.at_gate == names[t])
                 wait_until(quiescent)
@@ -882,14 +884,16 @@ def ast_params():
     if body and isinstance(body[-1], ast.Raise) and len(body) == 2 and isinstance(body[0], ast.If) and not body[0].orelse \
             and len(body[0].body) == 1 and isinstance(body[0].body[0], ast.Expr) and isinstance(body[0].body[0].value, ast.Call) \
             and _is_self_attr(body[0].body[0].value.func, "_wake_up_first"):
-        # re-wakes iff the lock is free
-        free = _bool_of(body[0].test, {"_locked": False, "_waiters": True})
-        held = _bool_of(body[0].test, {"_locked": True, "_waiters": True})
-        if not free or held:
-            raise _Outside("FairLock.acquire: unrecognised re-wake condition")
+        # when does the cancelled waiter pass the wake-up on?
+        out["fairlock_cancel_rewakes_when_free"] = _bool_of(body[0].test, {"_locked": False, "_waiters": True})
+        out["fairlock_cancel_silent_when_held"] = not _bool_of(body[0].test, {"_locked": True, "_waiters": True})
+    elif len(body) == 2 and isinstance(body[1], ast.Raise) and isinstance(body[0], ast.Expr) and isinstance(body[0].value, ast.Call) \
+            and _is_self_attr(body[0].value.func, "_wake_up_first"):
         out["fairlock_cancel_rewakes_when_free"] = True
+        out["fairlock_cancel_silent_when_held"] = False
     elif len(body) == 1 and isinstance(body[0], ast.Raise):
         out["fairlock_cancel_rewakes_when_free"] = False
+        out["fairlock_cancel_silent_when_held"] = True
     else:
         raise _Outside("FairLock.acquire: unrecognised except clause")
     fn = _func(_FL, "FairLock", "_wake_up_first")
@@ -978,6 +982,15 @@ def behavioural_params():
     # A ends (B woken, not run yet), B cancelled: B's except branch must wake C
     st4, _ = final(KIND_RAW, one(3), [[A_START, 0], [A_START, 1], [A_START, 2], S, [A_OK, 0], T, [A_CANCEL, 1], S])
     out["fairlock_cancel_rewakes_when_free"] = st4 == [10, 11, 2]
+    # A holds, B C queue, B cancelled WHILE A holds: nobody may be woken (C keeps waiting, A keeps the transport) ...
+    st6, _ = final(KIND_RAW, one(3), [[A_START, 0], [A_START, 1], [A_START, 2], S, [A_CANCEL, 1], S])
+    # ... and once A ends, C gets the lock
+    st7, _ = final(KIND_RAW, one(3), [[A_START, 0], [A_START, 1], [A_START, 2], S, [A_CANCEL, 1], S, [A_OK, 0], S])
+    out["fairlock_cancel_silent_when_held"] = st6 == [2, 11, 1] and st7 == [10, 11, 2]
+    if not out["fairlock_cancel_silent_when_held"] and not out["fairlock_leave_removes_own_waiter"]:
+        # the leave probe cancels a waiter while the lock is held: with a cancel branch that wakes somebody there it cannot
+        # tell how the waiter left the queue.  Undecided by behaviour: the ast reader has to say (else fail closed).
+        out["fairlock_leave_removes_own_waiter"] = None
     # A ends and C arrives in the same iteration (lock free, B queued): C must queue behind B
     st5, _ = final(KIND_RAW, one(3), [[A_START, 0], [A_START, 1], S, [A_OK, 0], [A_START, 2], S])
     out["fairlock_fast_path_checks_queue"] = st5 == [10, 2, 1]
@@ -1028,8 +1041,13 @@ def source_params():
         except _Outside as exc:
             why.append(str(exc))
     prov = {}
-    for k, v in beh.items():
-        if k in static:
+    for k, v in list(beh.items()):
+        if v is None:
+            if k not in static:
+                raise runner.TranslateError(f"{k}: undecided by the probes and outside the ast reader's fragment")
+            beh[k] = static[k]
+            prov[k] = "ast (the probe is undecided)"
+        elif k in static:
             if static[k] != v:
                 raise runner.TranslateError(f"{k}: the source reads {static[k]} but the probe on the real object says {v}")
             prov[k] = "ast+behavioural"
@@ -1163,7 +1181,8 @@ def oracle_threads(kind, progs, actions):
     except RuntimeError as exc:
         return f"interleaved: {exc}"
     started = sorted({a[1] for a in actions if a[0] == A_START})
-    timed = sorted({a[1] for a in actions if a[0] == A_TSTART} - set(started))
+    timed = sorted({a[1] for a in actions if a[0] == A_TSTART and (len(a) < 3 or a[2] != 2)} - set(started))
+    started = sorted(set(started) | {a[1] for a in actions if a[0] == A_TSTART and len(a) > 2 and a[2] == 2})
     for t in started:
         if statuses[t] != 10:
             return f"send failed: thread {t} ended with code {statuses[t]}"
@@ -1351,11 +1370,12 @@ def cases(tier, rng, escalate):
         for _ in range(count):
             ntasks = rng.choice([2, 3, 3, 4])
             shape = [[rng.choice([1, 1, 2, 3]) for _ in range(rng.choice([1, 1, 2]))] for _ in range(ntasks)]
-            timed = [t for t in range(ntasks) if rng.random() < 0.25]
-            for t in timed:
-                shape[t] = shape[t][:1]       # a sender with a timeout sends one packet
+            timed = {t: rng.choice([0, 1, 1, 2, 2]) for t in range(ntasks) if rng.random() < 0.35}
+            for t, c in timed.items():
+                if c != 2:
+                    shape[t] = shape[t][:1]       # a sender with a finite timeout sends one packet
             progs = mkprogs(shape, rng)
-            pool = [[A_TSTART if t in timed else A_START, t] for t in range(ntasks) if rng.random() < 0.9]
+            pool = [[A_TSTART, t, timed[t]] if t in timed else [A_START, t] for t in range(ntasks) if rng.random() < 0.9]
             pool += [[A_OK, 0]] * rng.randrange(0, 2 + sum(sum(sh) for sh in shape))
             rng.shuffle(pool)
             c = _thread_case(kind, progs, pool, "random")
@@ -1363,13 +1383,17 @@ def cases(tier, rng, escalate):
                 c["tags"].append("lock-timeout")
             yield c
         # a sender parked mid-packet, a second send that times out on the lock, a third sender
+        # and every kind of timeout (None / 0 / positive / inf) on a free and on a contended lock
         for perm in ([0, 1, 2], [0, 2, 1]) if kind == KIND_THREAD_TCP else ([0, 1, 2],):
-            progs = mkprogs([[2], [1], [2]])
-            acts = [[A_START, perm[0]], [A_TSTART, 1] if perm[1] == 1 else [A_START, perm[1]],
-                    [A_TSTART, 1] if perm[2] == 1 else [A_START, perm[2]], [A_OK, 0]]
-            c = _thread_case(kind, progs, acts, "exhaustive")
-            c["tags"].append("lock-timeout")
-            yield c
+            for code in (0, 1, 2):
+                progs = mkprogs([[2], [1], [2]])
+                timed_start = [A_TSTART, 1, code]
+                acts = [[A_START, perm[0]], timed_start if perm[1] == 1 else [A_START, perm[1]],
+                        timed_start if perm[2] == 1 else [A_START, perm[2]], [A_OK, 0]]
+                for script in (acts, [timed_start, [A_START, 0], [A_OK, 0], [A_START, 2]]):
+                    c = _thread_case(kind, progs, script, "exhaustive")
+                    c["tags"].append("lock-timeout")
+                    yield c
     # random part
     n_random = 5000 if thorough else 900
     for _ in range(n_random):
